@@ -344,6 +344,17 @@ fn collect_lists(l: &SemanticErrorList, out: &mut Vec<(PathBuf, Vec<(String, usi
     }
 }
 
+/// Parent index (into the depth-first list order of `collect_lists`) of every list; the root is
+/// its own parent.
+fn collect_parents(l: &SemanticErrorList, me: usize, parent: usize, out: &mut Vec<usize>) {
+    out.push(parent);
+    let _ = me;
+    for i in l.include_errors() {
+        let idx = out.len();
+        collect_parents(i, idx, me, out);
+    }
+}
+
 fn collect_included(files: &[SourceFile], out: &mut Vec<SourceFile>) {
     for f in files {
         out.push(f.clone());
@@ -351,26 +362,40 @@ fn collect_included(files: &[SourceFile], out: &mut Vec<SourceFile>) {
     }
 }
 
-fn check_spans(main_text: Option<&str>, main_tree: Option<oq3_syntax::SyntaxNode>, included: &[SourceFile], tagged: &[(PathBuf, Vec<(String, usize, usize)>)], fails: &mut Vec<(String, String)>) {
+fn check_spans(main_text: Option<&str>, main_tree: Option<oq3_syntax::SyntaxNode>, included: &[SourceFile], tagged: &[(PathBuf, Vec<(String, usize, usize)>)], parents: &[usize], fails: &mut Vec<(String, String)>) {
     // every semantic diagnostic's range is the range of a node of the tree of the file its list is tagged with
     let mut all = vec![];
     collect_included(included, &mut all);
+    let file_of = |i: usize| -> (Option<String>, Option<oq3_syntax::SyntaxNode>) {
+        if i == 0 {
+            (main_text.map(|s| s.to_string()), main_tree.clone())
+        } else {
+            match all.iter().find(|f| f.file_path() == tagged[i].0.as_path()) {
+                Some(f) => (std::fs::read_to_string(f.file_path()).ok(), f.ast().filter(|a| a.have_parse()).map(|a| a.syntax_node())),
+                None => (None, None),
+            }
+        }
+    };
     for (i, (path, errs)) in tagged.iter().enumerate() {
         if errs.is_empty() {
             continue;
         }
-        let (text, tree): (Option<String>, Option<oq3_syntax::SyntaxNode>) = if i == 0 {
-            (main_text.map(|s| s.to_string()), main_tree.clone())
-        } else {
-            match all.iter().find(|f| f.file_path() == path.as_path()) {
-                Some(f) => (std::fs::read_to_string(f.file_path()).ok(), f.ast().filter(|a| a.have_parse()).map(|a| a.syntax_node())),
-                None => (None, None),
-            }
-        };
+        let (text, tree) = file_of(i);
         for (kind, s, e) in errs {
             let k = kind.split('(').next().unwrap_or(kind).to_string();
             if k == "FileNotFound" || k == "IOError" || k == "PermissionDenied" {
-                continue; // judged separately (the range refers to the includer)
+                // the diagnostic of an include that cannot be read sits in the list of the
+                // including file: its range is the range of a node (the path literal) of that
+                // file's tree
+                let _ = parents;
+                if let (Some(t), Some(tr)) = (&text, &tree) {
+                    if s > e || *e > t.len() || !t.is_char_boundary(*s) || !t.is_char_boundary(*e) {
+                        fails.push((format!("C12:include:range-out-of-bounds:{k}"), format!("{s}..{e} in the includer of {}", path.display())));
+                    } else if !tr.descendants().any(|n| usize::from(n.text_range().start()) == *s && usize::from(n.text_range().end()) == *e && n.text().to_string().starts_with('"')) {
+                        fails.push((format!("C12:include:range-is-not-the-path-literal-of-the-includer:{k}"), format!("{s}..{e} ({:?}) in the includer of {}", t.get(*s..*e), path.display())));
+                    }
+                }
+                continue;
             }
             match (&text, &tree) {
                 (Some(t), Some(tr)) => {
@@ -404,7 +429,9 @@ fn run_impl(a: &Arrangement, l: &Laid) -> Result<Run, PanicInfo> {
                     collect_included(res.syntax_result().included(), &mut inc);
                     let mut span_fails = vec![];
                     let tree = res.syntax_result().syntax_ast().filter(|a| a.have_parse()).map(|a| a.syntax_node());
-                    check_spans($main_text, tree, res.syntax_result().included(), &tagged, &mut span_fails);
+                    let mut parents = vec![];
+                    collect_parents(res.semantic_errors(), 0, 0, &mut parents);
+                    check_spans($main_text, tree, res.syntax_result().included(), &tagged, &parents, &mut span_fails);
                     Run {
                         stmts: res.program().stmts().iter().map(|s| format!("{s:?}")).collect(),
                         symbols: res.symbol_table().verif_symbols().iter().map(|s| (s.name().to_string(), format!("{:?}", s.symbol_type()))).collect(),
